@@ -162,117 +162,141 @@ def main():
     else:
         coq = coqstage.run(pid, thorough=(tier == "thorough"))
 
-    # ---- 2. units
-    rng = random.Random(seed * 1000003 + int(pid[1:]))
-    if args.replay:
-        with open(args.replay) as f:
-            rp = json.load(f)
-        us = rp.get("units", [])
-    else:
-        us = []
-        corpus_dir = os.path.join(VERIF, "corpus", pid)
-        if os.path.isdir(corpus_dir):
-            for fn in sorted(os.listdir(corpus_dir)):
-                if fn.endswith(".json"):
-                    with open(os.path.join(corpus_dir, fn)) as f:
-                        us.extend(json.load(f).get("units", []))
-        us.extend(prop.units(rng, tier))
-
-    # ---- 3-5. run, compare, judge
-    oc = evaluate(prop, us, timeout=getattr(prop, "CASE_TIMEOUT", 60))
-    extra = prop.extra_checks(rng, tier, us, oc) if hasattr(prop, "extra_checks") else []
-    # extra: list of {"text":..., "units":[...], "kind": "judge"|"corr"} property-level checks (metamorphic pairs, histories...)
-
-    # ---- 5b. the extracted driver against vm_compute on the same requests (sample)
-    vm = {"checked": 0, "mismatches": [], "eligible": 0}
-    if not args.no_coq and not args.replay:
-        try:
-            vm = vmcheck.cross_check(oc.requests, oc.raw_replies, rng, sample=40 if tier == "quick" else 200)
-        except Exception as e:
-            vm = {"checked": 0, "mismatches": [f"cross-check failed to run: {type(e).__name__}: {e}"], "eligible": 0}
-    oc.vm = vm
-
-    # ---- 6. classify
-    bad = sorted(set(oc.mismatch) | set(oc.judged))
-    found_input = []
-    corr_only = []
-    for i in bad:
-        u = us[i]
-        kf = prop.known_finding(u, oc.impl[i], oc.model[i], oc.mismatch.get(i), oc.judged.get(i), known) \
-            if hasattr(prop, "known_finding") else None
-        if kf:
-            known_lines.append(kf)
-            continue
-        if i in oc.judged:
-            found_input.append(i)
+    # ---- 2-6 are one ROUND.  quick: one round.  thorough: rounds with fresh sub-seeds until the time budget is used
+    #      (VERIF_THOROUGH_BUDGET seconds, default 420; at most VERIF_THOROUGH_ROUNDS, default 40) or a violation is found.
+    budget = float(os.environ.get("VERIF_THOROUGH_BUDGET", "420"))
+    max_rounds = 1 if (tier == "quick" or args.replay) else int(os.environ.get("VERIF_THOROUGH_ROUNDS", "40"))
+    cum = {"rounds": 0, "evaluations": 0, "nontrivial": set(), "families": {}, "vm_checked": 0, "mismatch": 0, "judged": 0}
+    for rnd in range(max_rounds):
+        # ---- 2. units
+        rng = random.Random(seed * 1000003 + int(pid[1:]) + 7919 * rnd)
+        if args.replay:
+            with open(args.replay) as f:
+                rp = json.load(f)
+            us = rp.get("units", [])
         else:
-            corr_only.append(i)
+            us = []
+            corpus_dir = os.path.join(VERIF, "corpus", pid)
+            if os.path.isdir(corpus_dir):
+                for fn in sorted(os.listdir(corpus_dir)):
+                    if fn.endswith(".json"):
+                        with open(os.path.join(corpus_dir, fn)) as f:
+                            us.extend(json.load(f).get("units", []))
+            us.extend(prop.units(rng, tier))
 
-    def write_replay(name, payload):
-        path = os.path.join(replay_dir, f"{pid}_{name}.json")
-        with open(path, "w") as f:
-            json.dump(payload, f, indent=1, sort_keys=True)
-        return path
+        # ---- 3-5. run, compare, judge
+        oc = evaluate(prop, us, timeout=getattr(prop, "CASE_TIMEOUT", 60))
+        extra = prop.extra_checks(rng, tier, us, oc) if hasattr(prop, "extra_checks") else []
+        # extra: list of {"text":..., "units":[...], "kind": "judge"|"corr"} property-level checks (metamorphic pairs, histories...)
 
-    def fails_judge(v):
-        o = evaluate(prop, [v], timeout=getattr(prop, "CASE_TIMEOUT", 60))
-        return 0 in o.judged
+        # ---- 5b. the extracted driver against vm_compute on the same requests (sample)
+        vm = {"checked": 0, "mismatches": [], "eligible": 0}
+        if not args.no_coq and not args.replay:
+            try:
+                vm = vmcheck.cross_check(oc.requests, oc.raw_replies, rng, sample=40 if tier == "quick" else 200)
+            except Exception as e:
+                vm = {"checked": 0, "mismatches": [f"cross-check failed to run: {type(e).__name__}: {e}"], "eligible": 0}
+        oc.vm = vm
 
-    def fails_any(v):
-        o = evaluate(prop, [v], timeout=getattr(prop, "CASE_TIMEOUT", 60))
-        return 0 in o.judged or 0 in o.mismatch
+        # ---- 6. classify
+        bad = sorted(set(oc.mismatch) | set(oc.judged))
+        found_input = []
+        corr_only = []
+        for i in bad:
+            u = us[i]
+            kf = prop.known_finding(u, oc.impl[i], oc.model[i], oc.mismatch.get(i), oc.judged.get(i), known) \
+                if hasattr(prop, "known_finding") else None
+            if kf:
+                known_lines.append(kf)
+                continue
+            if i in oc.judged:
+                found_input.append(i)
+            else:
+                corr_only.append(i)
 
-    if found_input:
-        i = found_input[0]
-        u = shrink(prop, us[i], fails_judge) if not args.replay else us[i]
-        o1 = evaluate(prop, [u])
-        path = write_replay("violation", {
-            "property": pid, "kind": "failing-input", "units": [u],
-            "what": o1.judged.get(0, oc.judged[i]), "correspondence": o1.mismatch.get(0),
-            "impl_output": o1.impl[0], "model_output": o1.model[0],
-            "others": len(found_input) - 1,
-            "how_to_replay": f"/verif/check {pid} --replay <this file>"})
-        violations.append((f"property predicate false on implementation output: {units.short(o1.judged.get(0, oc.judged[i]), 200)}", path, True))
-    elif corr_only:
-        # correspondence broke but no judged failure among the generated cases: widen the search
-        i = corr_only[0]
-        witness = None
-        if hasattr(prop, "search_failing_input") and not args.replay:
-            witness = prop.search_failing_input(rng, tier, [us[j] for j in corr_only], evaluate)
-        if witness is not None:
-            o1 = evaluate(prop, [witness])
-            path = write_replay("violation", {
-                "property": pid, "kind": "failing-input", "units": [witness],
-                "what": o1.judged.get(0), "impl_output": o1.impl[0], "model_output": o1.model[0],
-                "found_by": "oracle-backed search after a correspondence break",
-                "how_to_replay": f"/verif/check {pid} --replay <this file>"})
-            violations.append((f"property predicate false on implementation output: {units.short(o1.judged.get(0), 200)}", path, True))
-        else:
-            u = shrink(prop, us[i], fails_any) if not args.replay else us[i]
+        def write_replay(name, payload):
+            path = os.path.join(replay_dir, f"{pid}_{name}.json")
+            with open(path, "w") as f:
+                json.dump(payload, f, indent=1, sort_keys=True)
+            return path
+
+        def fails_judge(v):
+            o = evaluate(prop, [v], timeout=getattr(prop, "CASE_TIMEOUT", 60))
+            return 0 in o.judged
+
+        def fails_any(v):
+            o = evaluate(prop, [v], timeout=getattr(prop, "CASE_TIMEOUT", 60))
+            return 0 in o.judged or 0 in o.mismatch
+
+        if found_input:
+            i = found_input[0]
+            u = shrink(prop, us[i], fails_judge) if not args.replay else us[i]
             o1 = evaluate(prop, [u])
             path = write_replay("violation", {
-                "property": pid, "kind": "correspondence-break",
-                "no_longer_checks": f"correspondence model<->implementation at port '{u['kind']}' (canonical form '{u.get('cmp')}'), on which theorems {coq.get('theorems', [])} rely",
-                "units": [u], "disagreement": o1.mismatch.get(0, oc.mismatch[i]),
+                "property": pid, "kind": "failing-input", "units": [u],
+                "what": o1.judged.get(0, oc.judged[i]), "correspondence": o1.mismatch.get(0),
                 "impl_output": o1.impl[0], "model_output": o1.model[0],
-                "disagreeing_cases": len(corr_only),
+                "others": len(found_input) - 1,
                 "how_to_replay": f"/verif/check {pid} --replay <this file>"})
-            violations.append((f"model and implementation disagree: {units.short(o1.mismatch.get(0, oc.mismatch[i]), 200)}", path, False))
+            violations.append((f"property predicate false on implementation output: {units.short(o1.judged.get(0, oc.judged[i]), 200)}", path, True))
+        elif corr_only:
+            # correspondence broke but no judged failure among the generated cases: widen the search
+            i = corr_only[0]
+            witness = None
+            if hasattr(prop, "search_failing_input") and not args.replay:
+                witness = prop.search_failing_input(rng, tier, [us[j] for j in corr_only], evaluate)
+            if witness is not None:
+                o1 = evaluate(prop, [witness])
+                path = write_replay("violation", {
+                    "property": pid, "kind": "failing-input", "units": [witness],
+                    "what": o1.judged.get(0), "impl_output": o1.impl[0], "model_output": o1.model[0],
+                    "found_by": "oracle-backed search after a correspondence break",
+                    "how_to_replay": f"/verif/check {pid} --replay <this file>"})
+                violations.append((f"property predicate false on implementation output: {units.short(o1.judged.get(0), 200)}", path, True))
+            else:
+                u = shrink(prop, us[i], fails_any) if not args.replay else us[i]
+                o1 = evaluate(prop, [u])
+                path = write_replay("violation", {
+                    "property": pid, "kind": "correspondence-break",
+                    "no_longer_checks": f"correspondence model<->implementation at port '{u['kind']}' (canonical form '{u.get('cmp')}'), on which theorems {coq.get('theorems', [])} rely",
+                    "units": [u], "disagreement": o1.mismatch.get(0, oc.mismatch[i]),
+                    "impl_output": o1.impl[0], "model_output": o1.model[0],
+                    "disagreeing_cases": len(corr_only),
+                    "how_to_replay": f"/verif/check {pid} --replay <this file>"})
+                violations.append((f"model and implementation disagree: {units.short(o1.mismatch.get(0, oc.mismatch[i]), 200)}", path, False))
 
-    for x in extra:
-        kf = x.get("known")
-        if kf:
-            known_lines.append(kf)
-            continue
-        path = write_replay("violation_extra", {"property": pid, "kind": x.get("kind", "failing-input"),
-                                                "what": x["text"], "units": x.get("units", []), "detail": x.get("detail")})
-        violations.append((x["text"], path, x.get("kind", "failing-input") == "failing-input"))
+        for x in extra:
+            kf = x.get("known")
+            if kf:
+                known_lines.append(kf)
+                continue
+            path = write_replay("violation_extra", {"property": pid, "kind": x.get("kind", "failing-input"),
+                                                    "what": x["text"], "units": x.get("units", []), "detail": x.get("detail")})
+            violations.append((x["text"], path, x.get("kind", "failing-input") == "failing-input"))
 
-    if oc.vm["mismatches"]:
-        path = write_replay("extraction", {"property": pid, "kind": "correspondence-break",
-                                           "no_longer_checks": "extracted OCaml driver vs vm_compute on the Gallina definitions (trusted glue: extraction + ocaml/driver.ml)",
-                                           "mismatches": oc.vm["mismatches"]})
-        violations.append((f"extracted model and vm_compute disagree: {oc.vm['mismatches'][0][:200]}", path, False))
+        if oc.vm["mismatches"]:
+            path = write_replay("extraction", {"property": pid, "kind": "correspondence-break",
+                                               "no_longer_checks": "extracted OCaml driver vs vm_compute on the Gallina definitions (trusted glue: extraction + ocaml/driver.ml)",
+                                               "mismatches": oc.vm["mismatches"]})
+            violations.append((f"extracted model and vm_compute disagree: {oc.vm['mismatches'][0][:200]}", path, False))
+
+
+        # cumulative statistics over the rounds
+        cum["rounds"] += 1
+        cum["evaluations"] += len(us) + sum(x.get("evaluations", 0) for x in extra if isinstance(x, dict))
+        cum["mismatch"] += len(oc.mismatch)
+        cum["judged"] += len(oc.judged)
+        cum["vm_checked"] += oc.vm.get("checked", 0)
+        for i, u in enumerate(us):
+            f = u.get("family", u["kind"])
+            cum["families"][f] = cum["families"].get(f, 0) + 1
+            try:
+                if prop.nontrivial(u, oc.impl[i], oc.model[i]):
+                    cum["nontrivial"].add(unit_key(u))
+            except Exception:
+                pass
+        if violations or time.time() - t_start > budget:
+            break
 
     if not coq["ok"]:
         path = write_replay("proof", {"property": pid, "kind": "proof-obligation-break",
@@ -289,7 +313,7 @@ def main():
     # ---- 7. evidence
     wall = time.time() - t_start
     if not args.replay:
-        ev.write(pid, tier, seed, prop, us, oc, coq, violations, known_lines, wall, extra)
+        ev.write(pid, tier, seed, prop, us, oc, coq, violations, known_lines, wall, extra, cum)
 
     for line in sorted(set(known_lines)):
         print(f"KNOWN-FINDING: property={pid} {line}")
